@@ -9,6 +9,7 @@
 
 mod ctx;
 mod pipe;
+mod pipe_x; mod pipe_wide; mod pipe_injoin; mod pipe_joinx; mod pipe_ucomb;
 mod tables;
 mod c01; mod c02; mod c03; mod c04; mod c05; mod c06; mod c07; mod c08; mod c09; mod c10;
 mod c01_x; mod c02_x;
